@@ -135,6 +135,55 @@ def sweep(ck, label, path, prefixes, workdir, corrupt=None):
     ck.sample({"trace": label, "bytes": len(blob), "prefixes_tested": len(tasks), "failing_runs": n_err, "identical_runs": n_same})
 
 
+def real_crash(ck, workdir, seed):
+    """The writer itself is killed in the middle of its write (RLIMIT_FSIZE -> SIGXFSZ) while re-writing a path that
+    already holds an older, complete trace: afterwards every command must fail or report the NEW run completely -
+    never the older run's entries and never a partial result."""
+    import pickle
+    import resource
+    import signal
+    from phyclone.process_trace import create_main_run_output
+
+    d = os.path.join(workdir, "crash")
+    os.makedirs(d, exist_ok=True)
+    path = os.path.join(d, "trace.pkl.gz")
+    ref_new = os.path.join(d, "new_complete.pkl.gz")
+    make_trace(ref_new, 3, 2, 30, seed + 5)
+    import gzip
+    with gzip.GzipFile(ref_new, "rb") as fh:
+        results_new = pickle.load(fh)
+    size_new = os.path.getsize(ref_new)
+    full_new = run_commands(ref_new, env.scratch(os.path.join("c20_out", "crash_full")))
+    limits = sorted({64, 700, size_new // 3, size_new // 2, size_new - 40, size_new - 3})
+    for L in limits:
+        make_trace(path, 2, 1, 2, seed + 6)            # the older, complete run
+        pid = os.fork()
+        if pid == 0:
+            try:
+                signal.signal(signal.SIGXFSZ, signal.SIG_DFL)
+                resource.setrlimit(resource.RLIMIT_FSIZE, (L, L))
+                create_main_run_output(None, path, results_new)
+            finally:
+                os._exit(0)
+        _, status = os.waitpid(pid, 0)
+        killed = os.WIFSIGNALED(status)
+        res = run_commands(path, d)
+        ck.evaluations += 3
+        ck.traces_validated += 1
+        ck.nontrivial("crash:%d" % L)
+        for cmd, (st, dig) in res.items():
+            if st == "ok" and dig != full_new[cmd][1]:
+                ck.violation("C20|stale_or_partial_after_crash|%s" % cmd, "the writer was killed after %d of %d bytes while re-writing an existing trace; %s then produced results that are not those of the complete new run" % (
+                    L, size_new, cmd), {"limit": L, "size": size_new, "command": cmd, "writer_killed": killed})
+        for extra in os.listdir(d):
+            if extra not in ("trace.pkl.gz", "new_complete.pkl.gz") and not extra.endswith((".tsv", ".nwk")):
+                try:
+                    os.remove(os.path.join(d, extra))
+                except OSError:
+                    pass
+    ck.extra["real_crash_limits"] = limits
+
+
 def run(corrupt=None):
     ck = Check("C20", level="fault_enumeration")
     env.use_repo()
@@ -155,12 +204,14 @@ def run(corrupt=None):
     step = max(1, size // (1500 if thorough else 400))
     prefixes = sorted(set(range(0, size, step)) | set(range(max(0, size - 300), size)))
     sweep(ck, "2chains_1100entries", p, prefixes, workdir)
+    real_crash(ck, workdir, ck.seed)
     shutil.rmtree(workdir, ignore_errors=True)
     shutil.rmtree(env.scratch("c20_out"), ignore_errors=True)
     ck.rule = ("every prefix length (crash point) of each small trace file x 3 summary commands; for the 1100-entry trace a dense sample of prefixes plus "
                "every byte of the last 300; non-trivial = each (file, prefix) pair")
     ck.exhaustive = True
-    ck.assumptions = ["a crash leaves a prefix of the bytes written by the single streamed write (no torn or reordered blocks)",
+    ck.assumptions = ["a crash leaves a prefix of the bytes written by the single streamed write (no torn or reordered blocks); additionally the real writer is "
+                      "killed by the kernel (RLIMIT_FSIZE) at six points while re-writing a path that holds an older complete trace",
                       "any exception of a summary command counts as 'fails with an error'"]
     if corrupt:
         return ck
